@@ -1001,7 +1001,7 @@ impl Prop for C10 {
     fn theorems(&self) -> &'static [&'static str] { &["TruthModel.C10.ribs_eq_spec", "TruthModel.C10.ribs_eq_spec_block", "TruthModel.C10.rename_invariant", "TruthModel.C10.rename_invariant_block", "TruthModel.C10.each_ident_visited_once", "TruthModel.C10.each_ident_resolved_once"] }
 
     fn gen(&self, tier: Tier, rng: &mut Rng) -> Vec<Case> {
-        let scale = if tier == Tier::Quick { 1 } else { 30 };
+        let scale = if tier == Tier::Quick { 2 } else { 30 };
         let mut out = vec![];
         for (tag, text) in fixed_cases() {
             out.push(Case::corr(crate::sexp::parse(text).expect("fixed case")).tag(format!("fixed-{tag}")));
